@@ -541,6 +541,50 @@ func checkSensorReaders(c *Ctx, r *Report) {
 		r.Check(okDef, name+"|unsupported", ctor.Pos(), "unsupported linearisation is an error", "no error return for non-linear sensors")
 	}
 
+	// "x is the raw byte interpreted as unsigned, one's-complement or two's-complement as the
+	// record states" — and as nothing else: the parser a reader keeps is the one the record's
+	// analog data format selects from the parser table, not something layered on top of it
+	// (clamping to the record's min/max, smoothing, …)
+	r.Rule("reader-parser-from-table", "the parser stored in a sensor reader is the result of the record's AnalogDataFormat.Parser() itself", 1)
+	{
+		nSt := 0
+		viewInstrs(ctor, func(in ssa.Instruction) {
+			st, ok := in.(*ssa.Store)
+			if !ok {
+				return
+			}
+			fa, ok := st.Addr.(*ssa.FieldAddr)
+			if !ok {
+				return
+			}
+			f := structField(fa.X.Type(), fa.Field)
+			if f == nil || types.TypeString(f.Type(), nil) != modPath+"/pkg/ipmi.AnalogDataFormatParser" {
+				return
+			}
+			nSt++
+			okP, why := true, ""
+			os := viewOrigins(ctor, st.Val)
+			if len(os) == 0 {
+				os = []ssa.Value{st.Val}
+			}
+			for _, o := range os {
+				ex, isEx := stripConv(o).(*ssa.Extract)
+				if !isEx || ex.Index != 0 {
+					okP, why = false, exprText(o)
+					continue
+				}
+				call, isCall := ex.Tuple.(*ssa.Call)
+				if !isCall || calleeName(&call.Call) != "("+modPath+"/pkg/ipmi.AnalogDataFormat).Parser" {
+					okP, why = false, exprText(o)
+				}
+			}
+			r.Check(okP, name+"|parser ← AnalogDataFormat.Parser()", st.Pos(), "the table's parser for the record's analog data format", "the reader's parser is not the one the record's analog data format selects ("+why+"): the raw byte is not interpreted as the record states")
+		})
+		if nSt == 0 {
+			r.Unk(name+"|parser field", ctor.Pos(), "no store of an AnalogDataFormatParser into a reader found in the constructor's view")
+		}
+	}
+
 	// construction never succeeds over a failure: on every path of the exported constructor
 	// (the per-kind constructors are part of its flattened view) that returns a reader, every
 	// error a module call returned was compared with nil
@@ -815,6 +859,26 @@ func checkSensorRead(c *Ctx, r *Report) {
 		}
 	})
 	r.Check(okL, c.FnName(lsd)+"|L(linear reading)", lsd.Pos(), "lineariser applied to the linear reader's result", "the linearised reader does not return lineariser.Linearise(linear reading)")
+	// ... and it has no errors of its own: whatever the linearisation function yields (±Inf and NaN
+	// included) is the reading; the only errors are the linear reader's, handed on as they are
+	okE, whyE := true, ""
+	for _, ret := range returnsOf(lsd) {
+		if len(ret.Results) != 2 {
+			continue
+		}
+		for _, v := range possibleValues(ret.Results[1]) {
+			if isNilConst(v) {
+				continue
+			}
+			if ex, ok := v.(*ssa.Extract); ok {
+				if rc, ok := ex.Tuple.(*ssa.Call); ok && rc.Call.StaticCallee() == lin {
+					continue
+				}
+			}
+			okE, whyE = false, exprText(v)
+		}
+	}
+	r.Check(okE, c.FnName(lsd)+"|errors are the linear reader's", lsd.Pos(), "nil or the linear reader's error", "the linearised reader returns an error of its own ("+whyE+"): a flag sentinel or failure the BMC did not cause")
 }
 
 // readerDispatch evaluates NewSensorReader with the record's Linearisation pinned: for each
